@@ -363,6 +363,8 @@ package crypto
 // Representation invariant of BLS public key objects: the cached flag says whether the point is the identity.
 // Every function of the package that creates or writes a pubKeyBLSBLS12381 establishes it (the list of such
 // functions is computed from the code: see `invariant-writers`), so it holds for every key a user can hold.
+//@ heaptype pubKeyBLSBLS12381
+//@ heaptype prKeyBLSBLS12381
 //@ pred pkWF(k) = k.isIdentity == e2IsInf(k.point)
 //@ pred frOK(x) = 0 <= x && x < FrR()
 //@ invariant-writers pubKeyBLSBLS12381 props C01 C16 C17
@@ -938,6 +940,8 @@ package crypto
 // Go glue of the BLS signature scheme (C01, C16, C17, C19)
 
 //@ global errNilHasher != nil && errNotBLSKey != nil && errInvalidSignature != nil && errBLSAggregateEmptyList != nil
+// errors.Is(e, e) holds for each sentinel
+//@ global iserr(errNilHasher, errNilHasher) && iserr(errNotBLSKey, errNotBLSKey) && iserr(errInvalidSignature, errInvalidSignature) && iserr(errBLSAggregateEmptyList, errBLSAggregateEmptyList)
 //@ global popKMAC != nil && popKMAC.osize == 128 && popKMAC.cfg == kmacCfg(seqid("BLS_POP_BLS12381G1_XOF:KMAC128_SSWU_RO_POP_"), seqid("H2C"), 128)
 
 //@ pred hasherOK(k) = k != nil && k.osize == 128
@@ -1000,6 +1004,10 @@ package crypto
 //@ requires self != nil
 //@ assigns nothing
 //@ ensures fresh(result)
+
+//@ func (PublicKey).Equals
+//@ requires self != nil
+//@ assigns nothing
 
 //@ func (PrivateKey).PublicKey
 //@ requires self != nil
@@ -1282,7 +1290,7 @@ package crypto
 //@ assigns nothing
 //@ ensures [size-range] (len(sharePublicKeys) < 2 || len(sharePublicKeys) > 254) ==> result0 == nil && iserr(result1, *invalidInputsError)
 //@ ensures [threshold-range] !(len(sharePublicKeys) < 2 || len(sharePublicKeys) > 254) && (threshold >= len(sharePublicKeys) || threshold < 1) ==> result0 == nil && iserr(result1, *invalidInputsError)
-//@ ensures [ok] result1 == nil ==> result0 != nil && fresh(result0) && tsInv(result0) && unlocked(result0) && len(result0.shares) == 0 && result0.thresholdSignature == nil && result0.size == len(sharePublicKeys) && result0.threshold == threshold
+//@ ensures [ok] result1 == nil ==> result0 != nil && fresh(result0) && tsInv(result0) && unlocked(result0) && len(result0.shares) == 0 && result0.thresholdSignature == nil && result0.size == len(sharePublicKeys) && result0.threshold == threshold && result0.publicKeyShares == sharePublicKeys && result0.groupPublicKey == groupPublicKey && result0.message == message
 //@ ensures [error] result1 != nil ==> result0 == nil
 //@ loop 1 invariant forall(k, 0, i, typeis(sharePublicKeys[k], *pubKeyBLSBLS12381))
 
@@ -1300,3 +1308,44 @@ package crypto
 //@ cfunc E1_lagrange_interpolate_at_zero_write nobody props C06 C09
 //@ requires degree >= 0 && valid(dest, 48) && valid(shares, 48*(degree+1)) && valid(indices, degree+1)
 //@ assigns dest[0:48]
+
+//@ func NewBLSThresholdSignatureParticipant mode int props C18 C06 C09
+//@ requires noTypedNilKeys(sharePublicKeys) && (typeis(groupPublicKey, *pubKeyBLSBLS12381) ==> unbox(groupPublicKey, *pubKeyBLSBLS12381) != nil)
+//@ requires typeis(myPrivateKey, *prKeyBLSBLS12381) ==> unbox(myPrivateKey, *prKeyBLSBLS12381) != nil && skInv(unbox(myPrivateKey, *prKeyBLSBLS12381))
+//@ assigns obj(myPrivateKey)
+//@ ensures [index-range] (myIndex < 0 || myIndex >= len(sharePublicKeys)) ==> result0 == nil && iserr(result1, *invalidInputsError)
+//@ ensures [not-a-bls-key] 0 <= myIndex && myIndex < len(sharePublicKeys) && !typeis(myPrivateKey, *prKeyBLSBLS12381) ==> result0 == nil && iserr(result1, errNotBLSKey)
+//@ ensures [ok] result1 == nil ==> result0 != nil && fresh(result0) && result0.blsThresholdSignatureInspector != nil && tsInv(result0.blsThresholdSignatureInspector) && unlocked(result0.blsThresholdSignatureInspector) && result0.myIndex == myIndex && result0.myPrivateKey == myPrivateKey
+//@ ensures [error] result1 != nil ==> result0 == nil
+
+// Stateless reconstruction: every share must be a 48-byte string, signers distinct and in range.
+//@ func BLSReconstructThresholdSignature mode int props C06 C09
+//@ assigns nothing
+//@ ensures [size-range] (size < 2 || size > 254) ==> result0 == nil && iserr(result1, *invalidInputsError)
+//@ ensures [threshold-range] !(size < 2 || size > 254) && (threshold >= size || threshold < 1) ==> result0 == nil && iserr(result1, *invalidInputsError)
+//@ ensures [length-mismatch] !(size < 2 || size > 254) && !(threshold >= size || threshold < 1) && len(shares) != len(signers) ==> result0 == nil && iserr(result1, *invalidInputsError)
+//@ ensures [not-enough] !(size < 2 || size > 254) && !(threshold >= size || threshold < 1) && len(shares) == len(signers) && len(shares) < threshold + 1 ==> result0 == nil && iserr(result1, *notEnoughSharesError)
+//@ ensures [success] result1 == nil ==> len(result0) == 48 && fresh(result0) && forall(k, 0, len(shares), len(shares[k]) == 48 && 0 <= signers[k] && signers[k] < size) && forall(k, 0, len(signers), forall(j, 0, k, signers[j] != signers[k]))
+//@ ensures [error] result1 != nil ==> result0 == nil
+//@ loop 1 invariant len(flatShares) == 48*i && len(indexSigners) == i && m != nil && fresh(m)
+//@ loop 1 invariant forall(k, 0, i, len(shares[k]) == 48 && 0 <= signers[k] && signers[k] < size)
+//@ loop 1 invariant forall(v, 0, 256, has(m, v) == exists(k, 0, i, signers[k] == v))
+//@ loop 1 invariant forall(k, 0, i, forall(j, 0, k, signers[j] != signers[k]))
+
+//@ func BLSThresholdKeyGen mode int props C06 C12 C09
+//@ assigns nothing
+//@ ensures [size-range] (size < 2 || size > 254) ==> iserr(result3, *invalidInputsError)
+//@ ensures [threshold-range] !(size < 2 || size > 254) && (threshold >= size || threshold < 1) ==> iserr(result3, *invalidInputsError)
+//@ ensures [short-seed] !(size < 2 || size > 254) && !(threshold >= size || threshold < 1) && len(seed) < 32 ==> iserr(result3, *invalidInputsError)
+//@ ensures [ok] !(size < 2 || size > 254) && !(threshold >= size || threshold < 1) && len(seed) >= 32 ==> result3 == nil && len(result0) == size && len(result1) == size && fresh(result0) && fresh(result1) && typeis(result2, *pubKeyBLSBLS12381) && pkWF(unbox(result2, *pubKeyBLSBLS12381))
+//@ ensures [ok-shares-are-bls-keys] result3 == nil ==> forall(k, 0, size, typeis(result0[k], *prKeyBLSBLS12381) && typeis(result1[k], *pubKeyBLSBLS12381) && pkWF(unbox(result1[k], *pubKeyBLSBLS12381)))
+//@ ensures [error] result3 != nil ==> len(result0) == 0 && len(result1) == 0 && result2 == nil
+//@ loop 1 invariant 1 <= i && i <= size + 1 && len(x) == size && len(y) == size && fresh(x) && fresh(y) && len(a) == threshold + 1
+//@ loop 2 invariant 0 <= i && i <= size && len(skShares) == size && len(pkShares) == size && fresh(skShares) && fresh(pkShares)
+//@ loop 2 invariant forall(k, 0, i, typeis(skShares[k], *prKeyBLSBLS12381) && typeis(pkShares[k], *pubKeyBLSBLS12381) && pkWF(unbox(pkShares[k], *pubKeyBLSBLS12381)))
+
+//@ cfunc Fr_polynomial_image props C06 C07 C09 params image y a degree x
+//@ requires image != nil && degree >= 0 && valid(a, degree+1) && (y == nil || valid(y, 1))
+//@ assigns *image, y[0:1]
+//@ loop 1 invariant -1 <= i && i <= degree
+//@ loop 1 assigns *image, i
